@@ -14,18 +14,18 @@ CHUNK = 2
 RULE = ('Cases: 2..8 samples (related sequences with substitutions, N, private extra records; disjoint and identical '
         'samples; a third of the cases with samples realising tables of all 15 ambiguity codes; output prefixes with and without dots) partitioned into 2..4 files in every order, merged flat or nested (merging merged files); the result of '
         '`ska merge` is compared with one joint `ska build` of the same samples in the merged order (differential) and with '
-        'the reference model.  k forced at 29/31/33/35 (width boundary) plus random odd k, both strand modes.  Refusal cases: '
+        'the reference model; the stored merged object is also decoded through the harness (k-mer integers, rows, per-row counts, lengths of the parallel containers) and compared with the model.  k forced at 29/31/33/35 (width boundary) plus random odd k, both strand modes.  Refusal cases: '
         'a file with k+-2 or the opposite strand mode as first and as later argument must give a non-zero exit and leave no '
         'output file.  Non-trivial: at least one k-mer is missing from at least one sample (padding is exercised); distinct = '
         'distinct (k, mode, samples, partition, nesting).')
 ASSUMPTIONS = ['the joint build is a run of the same binary (differential oracle); the model is the independent one',
                'sample names are s<i> (from file names)']
 REQUIRED = {t: ['merge:flat', 'merge:nested', 'refuse:k:first', 'refuse:k:later', 'refuse:rc:first', 'refuse:rc:later',
-                'width64', 'width128', 'padded_cells', 'samples_with_all_codes', 'dotted_output_prefix'] for t in ('quick', 'thorough')}
+                'width64', 'width128', 'padded_cells', 'samples_with_all_codes', 'dotted_output_prefix', 'stored_objects_checked'] for t in ('quick', 'thorough')}
 
 
 def builds(tier):
-    return ['rel', 'chk']
+    return ['rel', 'chk', 'harness']
 
 
 def plan(tier, seed, rng, scale):
@@ -157,6 +157,11 @@ def run_case(desc, ctx):
         for f in ('k', 'rc', 'k-mers', 'samples', 'sample_kmers'):
             if hm.get(f) != hj.get(f):
                 bad.append('header %s: merged %s, joint %s' % (f, hm.get(f), hj.get(f)))
+        if variant == 'rel' and not bad:
+            # the stored object itself (decoded k-mer integers, per-row counts, container lengths), not only what nk prints
+            bad += G.stored_problems(ctx, ctx.path(outname + '.skf'), model, names, k, rcmode, kbits=False)
+            if not bad:
+                res.count('stored_objects_checked')
         if bad:
             res.violate('C07:%s:table' % ('nested' if nested else 'flat'),
                         'k=%d rc=%s parts=%s nested=%s (%s): %s' % (k, rcmode, parts, nested, variant, '; '.join(bad[:3])),
